@@ -73,8 +73,8 @@ func sigImports(cases []*sigCase) []b1.ExtPkg {
 	return out
 }
 
-var sigArgTypes = []string{"[]ext.XInt", "ext.XInt", "*MyInt"}
-var sigArgNames = []string{"count", "code", "ref"}
+var sigArgTypes = []string{"[]ext.XInt", "ext.XInt", "*MyInt", "**ext.XS"}
+var sigArgNames = []string{"count", "code", "ref", "link"}
 
 func star(b bool, t string) string {
 	if b {
